@@ -9,7 +9,7 @@ from .mirutil import defuse, root_place, deep_root
 LEN_CALLS = ("slice::<impl [T]>::len", "vec::Vec::len", "str::<impl str>::len", "string::String::len", "smallvec::SmallVec::len")
 
 
-def term_of(body, op, depth=0, variables=None):
+def term_of(body, op, depth=0, variables=None, auto_vars=False):
     """Returns ('c', n) | ('len', arg_local) | ('var', name) | ('op', name, a, b) | ('cast', bits, t) | ('leaf', text).
     `variables` maps locals to variable names (the term is then a function of those variables)."""
     if depth > 24:
@@ -26,8 +26,10 @@ def term_of(body, op, depth=0, variables=None):
         d = du.single_def(l)
         if d and d[0] == "stmt" and d[3]["rv"]["k"] == "binop" and d[3]["rv"]["op"].endswith("WithOverflow"):
             rv = d[3]["rv"]
-            return ("op", rv["op"][:-len("WithOverflow")], term_of(body, rv["a"], depth + 1, variables), term_of(body, rv["b"], depth + 1, variables))
+            return ("op", rv["op"][:-len("WithOverflow")], term_of(body, rv["a"], depth + 1, variables, auto_vars), term_of(body, rv["b"], depth + 1, variables, auto_vars))
     if projs:
+        if auto_vars:
+            return ("var", "_%d%s" % (l, "".join("." + str(e.get("v", e.get("n", e.get("i", e["k"])))) for e in projs)))
         return ("leaf", "projected place")
     if variables and l in variables:
         return ("var", variables[l])
@@ -35,25 +37,25 @@ def term_of(body, op, depth=0, variables=None):
         return ("leaf", "arg%d" % l)
     d = du.single_def(l)
     if d is None:
-        return ("leaf", "multi-def _%d" % l)
+        return ("var", "_%d" % l) if auto_vars else ("leaf", "multi-def _%d" % l)
     if d[0] == "call":
         t = d[2]
         if callee_is(t, *LEN_CALLS) and t["args"]:
             r = deep_root(body, t["args"][0])
             if r is not None and 1 <= r["l"] <= body.arg_count and not [e for e in (r.get("p") or []) if e["k"] != "deref"]:
                 return ("len", r["l"])
-        return ("leaf", "call")
+        return ("var", "_%d" % l) if auto_vars else ("leaf", "call")
     rv = d[3]["rv"]
     if rv["k"] == "use":
-        return term_of(body, rv["op"], depth + 1, variables)
+        return term_of(body, rv["op"], depth + 1, variables, auto_vars)
     if rv["k"] == "cast" and rv["cast"].startswith("IntToInt"):
         dty = body.local_ty(l)
-        inner = term_of(body, rv["op"], depth + 1, variables)
+        inner = term_of(body, rv["op"], depth + 1, variables, auto_vars)
         if dty.k == "int" and not dty.d.get("signed"):
             return ("cast", dty.d["bits"], inner)
         return inner
     if rv["k"] == "binop" and rv["op"] in ("Add", "Sub", "Mul", "Div", "Rem", "Shl", "Shr", "BitAnd", "BitOr", "BitXor", "AddUnchecked", "SubUnchecked", "MulUnchecked", "ShlUnchecked", "ShrUnchecked"):
-        return ("op", rv["op"].replace("Unchecked", ""), term_of(body, rv["a"], depth + 1, variables), term_of(body, rv["b"], depth + 1, variables))
+        return ("op", rv["op"].replace("Unchecked", ""), term_of(body, rv["a"], depth + 1, variables, auto_vars), term_of(body, rv["b"], depth + 1, variables, auto_vars))
     return ("leaf", rv["k"])
 
 
